@@ -710,6 +710,11 @@ def _ite_struct(ce, a, b):
             def pointwise(j):
                 # an index beyond the (concrete) length of one alternative can only be an element of the other one
                 la, lb = seq_len(sa), seq_len(sb)
+                # (an EMPTY concrete alternative has no element at all: any in-range index belongs to the other one)
+                if isinstance(la, int) and la == 0:
+                    return sb.get(j)
+                if isinstance(lb, int) and lb == 0:
+                    return sa.get(j)
                 if isinstance(j, int) and isinstance(la, int) and not 0 <= j < la:
                     return sb.get(j)
                 if isinstance(j, int) and isinstance(lb, int) and not 0 <= j < lb:
@@ -868,6 +873,21 @@ def forall(lo, hi, fn, check_empty=True):
         # in-range index: they are asserted on their own, not made part of the formula (which may be a goal)
         st.assume(z3.ForAll([j], z3.Implies(rng, z3.And(*facts))))
     return mk_bool(z3.ForAll([j], z3.Implies(rng, b)))
+
+
+_ZSTR: dict = {}
+
+
+def zstr(e):
+    """`str(e)` of a z3 term, cached per term (pretty-printing a large index term again and again dominated the run time of
+    the container contracts).  The cache holds the term itself, so its id is not reused while the entry exists."""
+    k = e.get_id()
+    hit = _ZSTR.get(k)
+    if hit is None:
+        if len(_ZSTR) > 200000:
+            _ZSTR.clear()
+        hit = _ZSTR[k] = (e, str(e))
+    return hit[1]
 
 
 def arbitrary(name):
